@@ -30,6 +30,7 @@ INFO = {
     'max_replays': 10, 'max_replays_per_cond': 4,
 }
 
+BIG = 1_500_000_000
 X0 = np.array([[1, 10, 5], [2, 20, 5], [3, 10, 6], [4, 30, 7], [0, 20, 6]], dtype='int32')
 SELS = [0, 2, [1], [0, 2], [2, 1], np.array([0, 1])]
 P3 = [[0.25, 0.25, 0.5], [0.5, 0.25, 0.25], [0.25, 0.5, 0.25]]
@@ -73,7 +74,7 @@ def check_comb(cc, X, sel, kind):
         return []
     kw = {'combination_type': kind} if kind in ('linear', 'nonlinear') else {'combination_function': cc._xor}
     R = cc.generate_combinations(X, idx, **kw)
-    S = X[:, idx]
+    S = X[:, idx].astype(np.int64)      # the stated function on the VALUES (exact integer sum), whatever the storage width of the data set
     exp = {'linear': lambda: np.sum(S, axis=1), 'nonlinear': lambda: np.sin(np.sum(S, axis=1)), 'xor': lambda: np.bitwise_xor.reduce(S.astype(int), axis=1)}[kind]()
     probs = []
     if R.shape != (X.shape[0], X.shape[1] + 1) or not np.allclose(R[:, -1], exp) or not np.allclose(R[:, :-1], X):
@@ -253,6 +254,8 @@ def run_job(job):
         ctx.assume(st['a'] >= 0, st['a'] < 8, st['b'] >= 0, st['b'] < 4, st['p'] >= 0, st['p'] < 8)
         for v in st['y']:
             ctx.assume(v >= 0, v <= 2)
+        if cond in ('duplicates', 'combinations', 'correlated'):
+            ctx.assume(st['y'][0] <= 1)
         for k, v in job['pins'].items():
             ctx.assume(z3.Int(k) == v)
 
@@ -267,6 +270,9 @@ def run_job(job):
             si = int(SInt(st['a'], 0, 7)) % len(SELS)
             sel = SELS[si]
             w['sel'] = si
+            # the same data set shifted to the top of the 32-bit range (random_values with large bounds / explicit large domains)
+            w['big'] = int(SInt(st['y'][0], 0, 2)) % 2
+            X = X + np.int32(BIG * w['big'])
             if cond == 'duplicates':
                 probs = check_dup(cc, X, sel)
             elif cond == 'correlated':
@@ -336,6 +342,7 @@ def replay(w):
         if c in ('duplicates', 'combinations', 'correlated'):
             cc = CC(seed=1)
             sel = SELS[w['sel']]
+            X = X + np.int32(BIG * w.get('big', 0))
             probs = check_dup(cc, X, sel) if c == 'duplicates' else (check_corr(cc, X, sel) if c == 'correlated' else check_comb(cc, X, sel, w['kind']))
         elif c == 'labels-many':
             probs = check_labels_many(CC(seed=1), w['n'])
